@@ -91,6 +91,8 @@ def run_readback(out, stream, zone, rnd, n):
         m = rnd.randrange(128) if k >= 3 else [0, 0, 127][k]           # the one-time schedule (no days) and the full week are always there
         cases.append({"zone": zone, "now": now, "start": "%02d:%02d" % (rnd.randrange(24), rnd.randrange(60)),
                       "end": "%02d:%02d" % (rnd.randrange(24), rnd.randrange(60)), "days": [d for d in range(7) if m >> d & 1], "slot": rnd.randrange(8)})
+        if k % 5 == 4: cases[-1]["end"] = cases[-1]["start"]              # a slot that ends in the minute it starts in (duration 0:00:00) is a slot
+        if k % 5 == 3: cases[-1]["end"] = "%02d:%02d" % divmod((int(cases[-1]["start"][:2]) * 60 + int(cases[-1]["start"][3:]) + rnd.choice([1, -1, 720])) % 1440, 60)
     # slots created in the week before the clocks change, for the change-over weekday (alone, or with the days after it), at times that day
     # does not have or has twice - today has them once, and today's date is the one the record is stamped with
     tz = zoneinfo.ZoneInfo(zone)
